@@ -28,8 +28,15 @@ pub open spec fn alive_after<P: Spawner<A>, A: Actor>(w: &World, t: int, retaine
 // ghost name of the runtime task that runs the loop future whose notifier resolves running slot `s` (a loop future is spawned at most once)
 pub uninterp spec fn slot_task(s: int) -> int;
 pub open spec fn spawned_here(pre: &World, post: &World, t: int) -> bool { !pre.tasks.dom().contains(t) && post.tasks.dom().contains(t) }
-pub open spec fn spawned_one<P: Spawner<A>, A: Actor>(pre: &World, post: &World, t: int, retained: bool, info: LoopInfo) -> bool {
+// one actor task spawned between pre and post, running exactly `info`, still alive after the call
+pub open spec fn spawned_task<P: Spawner<A>, A: Actor>(pre: &World, post: &World, t: int, retained: bool, info: LoopInfo) -> bool {
     &&& spawned_here(pre, post, t) && alive_after::<P, A>(post, t, retained) && post.task_info[t] == info
     &&& t == slot_task(info.slot)
     &&& post.tasks.dom() =~= pre.tasks.dom().insert(t)
+    &&& post.slots.dom().contains(info.slot)
+}
+// ... by an operation that has nothing to do with the service registry (every spawn entry point except the builder's `register`)
+pub open spec fn spawned_one<P: Spawner<A>, A: Actor>(pre: &World, post: &World, t: int, retained: bool, info: LoopInfo) -> bool {
+    &&& spawned_task::<P, A>(pre, post, t, retained, info)
+    &&& post.registry == pre.registry && post.reg_acq == pre.reg_acq && post.reg_evictions == pre.reg_evictions && post.locked == pre.locked
 }
